@@ -77,6 +77,7 @@ type pxState struct {
 	transport string
 	backend  string
 	seq      int
+	armed    map[int]bool // one-shot: the next upstream request for the resource finds its entry deleted while the origin answers
 }
 
 func pxBodyByte(res, ver, i int) byte { return byte((ver*16+res)*131 + i*7 + (i >> 8) + 3) }
@@ -98,6 +99,7 @@ var pxHdrSets = [][][2]string{
 	{{"Link", "<a>; rel=next"}, {"Link", "<b>; rel=prev"}, {"x-lower-case", "v"}, {"Warning", "199 - w1"}, {"Warning", "199 - w2"}},
 	{{"Content-Type", "application/x-rv"}, {"Proxy-Authenticate", "Basic"}, {"Trailer", "X-T"}, {"Upgrade", "h2c"}},
 	{{"Connection", "X-Hop2, keep-alive"}, {"X-Hop2", "s"}, {"X-Keep", "2"}},
+	{{"Connection", "keep-alive"}, {"Connection", "X-Hop3"}, {"X-Hop3", "t"}, {"X-Keep", "3"}}, // nominations on a second Connection line
 }
 
 func (s *pxState) originHandler(w http.ResponseWriter, r *http.Request) {
@@ -131,7 +133,16 @@ func (s *pxState) originHandler(w http.ResponseWriter, r *http.Request) {
 	}
 	entry := fmt.Sprintf("%s r%d inm=%s ims=%s im=%s ius=%s range=%s ifrange=%s hop=[%s] x=%s q=%s body=%d", r.Method, resID, hx0(g("If-None-Match")), imsSym, hx0(g("If-Match")), hx0(g("If-Unmodified-Since")), hx0(g("Range")), ifrSym, strings.Join(hop, " "), hx0(g("X-Client")), hx0(r.URL.RawQuery), len(body))
 	s.log = append(s.log, entry)
+	drop := s.armed[resID]
+	delete(s.armed, resID)
 	s.mu.Unlock()
+	if drop {
+		// the environment (eviction, cleanup, an operator) removes the entry of exactly this request's key
+		// while the upstream exchange is in progress
+		// (requests read inside a CONNECT tunnel carry no TLS state either: MakeFromRequest sees scheme "http")
+		kr := &http.Request{Method: r.Method, Host: r.Host, URL: r.URL}
+		s.p.VerifCache().(interface{ Delete(cache.CacheKey) error }).Delete(cache.MakeFromRequest(kr))
+	}
 	if !ok {
 		http.Error(w, "no such resource", 404)
 		return
@@ -414,6 +425,7 @@ func init() {
 					}
 					s.p = p
 					s.res = map[int]*pxRes{}
+					s.armed = map[int]bool{}
 					s.log = nil
 					s.origin = httptest.NewServer(http.HandlerFunc(s.originHandler))
 					s.proxySrv = httptest.NewServer(p)
@@ -506,6 +518,8 @@ func init() {
 					switch f[7] {
 					case "1":
 						hdr = append(hdr, [2]string{"X-Client", "c1"}, [2]string{"Connection", "X-Hop-Req"}, [2]string{"X-Hop-Req", "h"})
+					case "3":
+						hdr = append(hdr, [2]string{"X-Client", "c4"}, [2]string{"Connection", "keep-alive"}, [2]string{"Connection", "X-Hop-Req"}, [2]string{"X-Hop-Req", "h"})
 					case "2":
 						hdr = append(hdr, [2]string{"X-Client", "c2"}, [2]string{"X-Client", "c3"}, [2]string{"Proxy-Authorization", "Basic x"}, [2]string{"TE", "trailers"})
 					}
@@ -565,13 +579,20 @@ func init() {
 					}
 					return fmt.Sprintf("st=%d xc=%s cs=%s age=%s body=%s cl=%s cr=%s etag=%s lm=%s ar=%s h=%s%s up=[%s]", resp.StatusCode, xc, hx0Empty(cs), plain("Age"),
 						s.describeBody(id, resp, b, method), cl, plain("Content-Range"), g("ETag"), lmSym, plain("Accept-Ranges"),
-						canonHeaders(resp.Header, []string{"Set-Cookie", "Vary", "Link", "Warning", "X-Keep", "X-Hop", "X-Hop2", "X-Lower-Case", "Keep-Alive", "Proxy-Authenticate", "Trailer", "Upgrade", "Content-Type", "Location", "Via"}), trunc, up)
+						canonHeaders(resp.Header, []string{"Set-Cookie", "Vary", "Link", "Warning", "X-Keep", "X-Hop", "X-Hop2", "X-Hop3", "X-Lower-Case", "Keep-Alive", "Proxy-Authenticate", "Trailer", "Upgrade", "Content-Type", "Location", "Via"}), trunc, up)
 				case "shift":
 					ms, _ := strconv.ParseInt(f[2], 10, 64)
 					s.hooks().VerifShiftClock(time.Duration(ms) * time.Millisecond)
 					return "shifted"
-				case "drop": // environment step: the entry of resource id is deleted (eviction / cleanup / operator)
-					return "dropped"
+				case "arm": // the next upstream request for resource id finds its entry deleted mid-exchange
+					id, _ := strconv.Atoi(f[2])
+					s.mu.Lock()
+					if s.armed == nil {
+						s.armed = map[int]bool{}
+					}
+					s.armed[id] = true
+					s.mu.Unlock()
+					return "armed"
 				case "tunnelclose":
 					if s.tunnel != nil {
 						s.tunnel.Close()
@@ -689,7 +710,7 @@ func genProxyTrace(c runCfg, o *Out, emit func(...string)) {
 				fields = append(fields, "age="+itoa(r.Intn(50)))
 			}
 			if r.Chance(35) {
-				fields = append(fields, "hdrset="+itoa(1+r.Intn(5)))
+				fields = append(fields, "hdrset="+itoa(1+r.Intn(6)))
 			}
 			emit("px", "origin", itoa(id), strings.Join(fields, ";"))
 		}
@@ -716,7 +737,7 @@ func genProxyTrace(c runCfg, o *Out, emit func(...string)) {
 					cond = []string{"inm:" + hx("\"x\""), "ims:" + hx("Mon, 02 Jan 2006 15:04:05 GMT"), "ims:" + hx("garbage"), "ius:" + hx("yesterday"), "im:" + hx("*"), "inm:" + hx(fmt.Sprintf("\"e%d\"", ver))}[r.Intn(6)]
 				}
 				if r.Chance(25) {
-					hs = itoa(1 + r.Intn(2))
+					hs = itoa(1 + r.Intn(3))
 				}
 				if r.Chance(10) {
 					q = hx([]string{"a=1", "b|c", "x=%7C"}[r.Intn(3)])
@@ -725,6 +746,22 @@ func genProxyTrace(c runCfg, o *Out, emit func(...string)) {
 					body = hx(strings.Repeat("p", 1+r.Intn(40)))
 				}
 				emit("px", "req", itoa(id), method, rng, ifr, cond, hs, q, body)
+			case x < 67:
+				emit("px", "arm", itoa(id))
+				if r.Chance(60) {
+					// make the armed exchange likely to be a revalidation of a stale entry
+					emit("px", "shift", "130000")
+					emit("px", "req", itoa(id), "GET", "-", "-", "-", "0", "-", "-")
+				}
+			case x < 71:
+				// a revalidation long after expiry, then the same request again: the renewed lifetime counts from the revalidation
+				emit("px", "shift", itoa(1000*[]int{61, 130, 130, 400}[r.Intn(4)]))
+				emit("px", "req", itoa(id), "GET", "-", "-", "-", "0", "-", "-")
+				emit("px", "req", itoa(id), "GET", "-", "-", "-", "0", "-", "-")
+				if r.Chance(50) {
+					emit("px", "shift", itoa(1000*[]int{4, 6, 29, 31, 119, 121}[r.Intn(6)]))
+					emit("px", "req", itoa(id), "GET", "-", "-", "-", "0", "-", "-")
+				}
 			case x < 84:
 				emit("px", "shift", itoa(1000*[]int{1, 1, 3, 4, 6, 29, 31, 59, 61, 130}[r.Intn(10)]))
 			case x < 94:
